@@ -22,6 +22,8 @@ use std::sync::Arc;
 pub enum Cond {
     /// a single value template
     Val(String),
+    /// `not <value>`
+    NotVal(String),
     And(Vec<String>),
     Or(Vec<String>),
     /// `cnd <site> <default>` / `not cnd ...` ; answers from the site's scripted sequence
@@ -96,6 +98,7 @@ const RETURN_SP: [&str; 2] = ["return", "std::flowcontrol::Return"];
 pub fn render_cond(c: &Cond) -> String {
     match c {
         Cond::Val(v) => render_arg(v),
+        Cond::NotVal(v) => format!("not {}", render_arg(v)),
         Cond::And(vs) => vs.iter().map(|v| render_arg(v)).collect::<Vec<_>>().join(" and "),
         Cond::Or(vs) => vs.iter().map(|v| render_arg(v)).collect::<Vec<_>>().join(" or "),
         Cond::Cnd { site, negate } => format!("{}cnd {} {}", if *negate { "not " } else { "" }, site, negate),
@@ -350,6 +353,13 @@ impl<'a> Interp<'a> {
                     return Err(Stop::Inconclusive("condition reads an unconstrained value".to_string()));
                 }
                 Ok(truthy(&s))
+            }
+            Cond::NotVal(v) => {
+                let (s, t) = self.eval(v);
+                if t {
+                    return Err(Stop::Inconclusive("condition reads an unconstrained value".to_string()));
+                }
+                Ok(!truthy(&s))
             }
             Cond::And(vs) => {
                 let mut r = true;
@@ -1024,7 +1034,8 @@ impl<'r> G<'r> {
             return Cond::Cnd { site: self.new_cnd(3), negate: self.rng.chance(1, 4) };
         }
         match self.rng.below(10) {
-            0 | 1 | 2 => Cond::Val(self.cond_value(ctx)),
+            0 | 1 => Cond::Val(self.cond_value(ctx)),
+            2 => Cond::NotVal(self.cond_value(ctx)),
             3 => {
                 let n = 2 + self.rng.usize(2);
                 Cond::And((0..n).map(|_| self.cond_value(ctx)).collect())
